@@ -659,7 +659,7 @@ Definition pre_match (st : dstate) (l : label) (pre : option (N * N)) : bool :=
                | _ => 0 end in
     match find_live sid (d_strs st) with
     | None => false
-    | Some s => (ss_buf s =? b) && (N.of_nat (length (ss_q s)) =? n)
+    | Some s => (ss_buf s =? b) && ((n =? 4294967295) || (N.of_nat (length (ss_q s)) =? n))   (* 2^32-1: length not observed *)
     end
   end.
 
